@@ -169,7 +169,14 @@ def r016_features(ctx, rule):
             okst = okst and (not extra or (all(g is notnone for g in extra) and _never_none(ctx)))
         elif contains(it, lambda s_: s_ is cf[0].data["result"]):
             seen["c"] += 1
-            okst = okst and all(g is given or g is A.C.canon(mk("cmp", "is not", it, NONE)) for g in extra)
+            def _cf_present(g):
+                # `cf_list is not None` for the processed control list (whatever local holds it)
+                if g.op == "not" and g.args[0].op == "cmp" and g.args[0].args[0] == "is":
+                    g = mk("cmp", "is not", g.args[0].args[1], g.args[0].args[2])
+                return g.op == "cmp" and g.args[0] == "is not" and NONE in (g.args[1], g.args[2]) and any(
+                    contains(x, lambda s_: s_ is cf[0].data["result"] or s_ is A.C.canon(cf[0].data["result"]))
+                    for x in (g.args[1], g.args[2]) if x is not NONE)
+            okst = okst and all(g is given or g is A.C.canon(mk("cmp", "is not", it, NONE)) or _cf_present(g) for g in extra)
         else:
             okst = False
     okst = okst and seen["s"] == 1 and seen["c"] == 1
